@@ -443,7 +443,7 @@ class Check:
             self.samples.append(x)
 
     def write_replay(self, name, payload):
-        p = REPLAY / f'{self.prop}-{name}.json'
+        p = REPLAY / (f'{self.prop}-' + re.sub(r'[^A-Za-z0-9._+-]+', '_', str(name))[:120] + '.json')     # no blanks in a path that is printed on a VIOLATION line
         p.write_text(json.dumps(payload, indent=1, ensure_ascii=False))
         return p
 
